@@ -195,7 +195,7 @@ theorem channel_const (p : Pair) (ik : IKind) (hp : p ∈ supported) (hr : p.exc
     channel p ik = channel p .spot := by
   obtain ⟨e, k⟩ := p
   cases e <;> cases k <;> simp [supported] at hp <;>
-  simp_all [channel, Exch.readsChan, Exch.isGateio]
+  simp_all [channel, Exch.readsChan]
 
 theorem channel_of_supports (p : Pair) (ik : IKind) (hp : p ∈ supported) (hs : supports p ik = true) :
     channel p ik = venueChannel p := by
@@ -215,8 +215,6 @@ theorem upper_fmtYmd4 (d : Date) : upper (fmtYmd4 d) = fmtYmd4 d := by
 theorem upper_cp (c : Bool) : upper (cp c) = cp c := by cases c <;> rfl
 
 theorem market_eq_venueSymbol (e : Exch) (i : Inst) : market e i = venueSymbol e i := by
-  have hS : upper "-SWAP".toList = "-SWAP".toList := by decide
-  have hQ : upper "_QUARTERLY_".toList = "_QUARTERLY_".toList := by decide
   have h1 : upc '-' = '-' := by decide
   have h2 : upc '_' = '_' := by decide
   have h3 : upc '/' = '/' := by decide
@@ -226,7 +224,7 @@ theorem market_eq_venueSymbol (e : Exch) (i : Inst) : market e i = venueSymbol e
   cases e <;> cases ik <;>
   simp +decide [market, venueSymbol, concatMarket, coinbaseMarket, krakenMarket, bitfinexMarket, okxMarket,
     gateioMarket, Inst.b, Inst.q, upper_append, upper_lower, upper_cons, upper_nil,
-    upper_pad, hcp, upper_toDigits, hS, hQ, h1, h2, h3, yymmdd, yyyymmdd, fmtYmd2, fmtYmd4, cp]
+    upper_pad, hcp, upper_toDigits, h1, h2, h3, yymmdd, yyyymmdd, fmtYmd2, fmtYmd4, cp]
 
 
 /-! ### specification side -/
@@ -271,5 +269,100 @@ theorem ids_nodup_of_symbols (p : Pair) (subs : List Inst) (hp : p ∈ supported
     simp [subscriptionId, channel_of_supports p i.kind hp (hs i hi), market_eq_venueSymbol]
   rw [this]
   exact List.Pairwise.map _ (fun a b hab h => hab (subId_injective _ _ _ h)) hd
+
+/-! ### Bitfinex: channel-id re-keying -/
+
+theorem digits_ne_subId (c : Nat) (ch m : Str) : Nat.toDigits 10 c ≠ subId ch m := by
+  intro h
+  exact bar_not_mem_toDigits c (h ▸ bar_mem_subId ch m)
+
+/-- one confirmation for another channel id leaves the entry under `digits c` alone -/
+theorem find_digits_subscribed (m : IMap) (ch s : Str) (c' c : Nat) (h : c' ≠ c) :
+    (bitfinexSubscribed m ch s c').find (Nat.toDigits 10 c) = m.find (Nat.toDigits 10 c) := by
+  unfold bitfinexSubscribed
+  split
+  · rw [find_insert_ne _ _ _ _ (fun e => h (toDigits_injective e).symm),
+      find_remove_ne _ _ _ (digits_ne_subId c ch s)]
+  · rfl
+
+theorem find_digits_confirm (m : IMap) (confs : List (Str × Nat)) (c : Nat)
+    (h : c ∉ confs.map (·.2)) :
+    (bitfinexConfirm m confs).find (Nat.toDigits 10 c) = m.find (Nat.toDigits 10 c) := by
+  induction confs generalizing m with
+  | nil => rfl
+  | cons x rest ih =>
+    simp only [List.map_cons, List.mem_cons, not_or] at h
+    simp only [bitfinexConfirm, List.foldl_cons]
+    have := ih (bitfinexSubscribed m "trades".toList x.1 x.2) h.2
+    simp only [bitfinexConfirm] at this
+    rw [this, find_digits_subscribed _ _ _ _ _ (Ne.symm h.1)]
+
+/-- one confirmation for another symbol leaves the entry under `trades|sym` alone -/
+theorem find_subId_subscribed (m : IMap) (s sym : Str) (c' : Nat) (h : s ≠ sym) :
+    (bitfinexSubscribed m "trades".toList s c').find (subId "trades".toList sym)
+      = m.find (subId "trades".toList sym) := by
+  unfold bitfinexSubscribed
+  split
+  · rw [find_insert_ne _ _ _ _ (fun e => digits_ne_subId c' _ _ e.symm),
+      find_remove_ne _ _ _ (fun e => h (subId_injective _ _ _ e).symm)]
+  · rfl
+
+theorem find_confirm_attributed (m : IMap) (confs : List (Str × Nat))
+    (hs : (confs.map (·.1)).Nodup) (hc : (confs.map (·.2)).Nodup)
+    (sym : Str) (c key : Nat) (hmem : (sym, c) ∈ confs)
+    (hfind : m.find (subId "trades".toList sym) = some key) :
+    (bitfinexConfirm m confs).find (Nat.toDigits 10 c) = some key := by
+  induction confs generalizing m with
+  | nil => simp at hmem
+  | cons x rest ih =>
+    simp only [List.map_cons, List.nodup_cons] at hs hc
+    simp only [bitfinexConfirm, List.foldl_cons]
+    rcases List.mem_cons.mp hmem with rfl | hrest
+    · have := find_digits_confirm (bitfinexSubscribed m "trades".toList sym c) rest c hc.1
+      simp only [bitfinexConfirm] at this
+      rw [this]
+      unfold bitfinexSubscribed
+      rw [hfind]
+      exact find_insert_self _ _ _
+    · have hne : x.1 ≠ sym := by
+        intro e; apply hs.1; rw [e]
+        exact List.mem_map.mpr ⟨(sym, c), hrest, rfl⟩
+      have := ih (bitfinexSubscribed m "trades".toList x.1 x.2) hs.2 hc.2 hrest
+        (by rw [find_subId_subscribed _ _ _ _ hne]; exact hfind)
+      simpa [bitfinexConfirm] using this
+
+/-- a symbol without an entry keeps having none, and its confirmation creates no numeric entry -/
+theorem find_none_subscribed (m : IMap) (s sym : Str) (c' : Nat)
+    (h : m.find (subId "trades".toList sym) = none) :
+    (bitfinexSubscribed m "trades".toList s c').find (subId "trades".toList sym) = none := by
+  by_cases hs : s = sym
+  · subst hs; unfold bitfinexSubscribed; rw [h]; exact h
+  · rw [find_subId_subscribed _ _ _ _ hs]; exact h
+
+theorem find_confirm_rejected (m : IMap) (confs : List (Str × Nat))
+    (hc : (confs.map (·.2)).Nodup)
+    (sym : Str) (c : Nat) (hmem : (sym, c) ∈ confs)
+    (hfind : m.find (subId "trades".toList sym) = none)
+    (hdig : m.find (Nat.toDigits 10 c) = none) :
+    (bitfinexConfirm m confs).find (Nat.toDigits 10 c) = none := by
+  induction confs generalizing m with
+  | nil => simp at hmem
+  | cons x rest ih =>
+    simp only [List.map_cons, List.nodup_cons] at hc
+    simp only [bitfinexConfirm, List.foldl_cons]
+    rcases List.mem_cons.mp hmem with rfl | hrest
+    · have := find_digits_confirm (bitfinexSubscribed m "trades".toList sym c) rest c hc.1
+      simp only [bitfinexConfirm] at this
+      rw [this]
+      unfold bitfinexSubscribed
+      rw [hfind]
+      exact hdig
+    · have hne : x.2 ≠ c := by
+        intro e; apply hc.1; rw [e]
+        exact List.mem_map.mpr ⟨(sym, c), hrest, rfl⟩
+      have := ih (bitfinexSubscribed m "trades".toList x.1 x.2) hc.2 hrest
+        (find_none_subscribed _ _ _ _ hfind)
+        (by rw [find_digits_subscribed _ _ _ _ _ hne]; exact hdig)
+      simpa [bitfinexConfirm] using this
 
 end BarterModel.Connectors
